@@ -78,14 +78,24 @@ def header_text(st_):
 
 
 VALS = [1.5, 2.5, 0.75, 4.0, 3.25]
-EDITS = ["k1", "k2", "k3", "k4", "param", "default", "valid"]
+EDITS = ["k1", "k2", "k3", "k4", "param", "default", "valid", "valid"]
 
 
 @st.composite
 def histories(draw):
     n = draw(st.integers(3, 12))
     steps = []
-    if draw(st.integers(0, 2)) == 0:
+    cur_valid = [None]
+
+    def valid_value():
+        # toggles: an attribute that is present is mostly taken away again (an edit that REMOVES a name)
+        if cur_valid[0] is None:
+            v = draw(st.sampled_from([5.0, 1000.0]))
+        else:
+            v = draw(st.sampled_from([None, None, 5.0, 1000.0]))
+        cur_valid[0] = v
+        return v
+    if draw(st.integers(0, 1)) == 0:
         # every ordered pair of edits with a load in the same process before, between and after them: stale state
         # that needs one file reloaded while another stays cached is only reached by such orderings
         def edit(kind):
@@ -96,7 +106,7 @@ def histories(draw):
             if kind == "param":
                 return {"op": "param", "value": draw(st.sampled_from([2.0, 0.5]))}
             if kind == "valid":
-                return {"op": "valid", "value": draw(st.sampled_from([None, 5.0, 1000.0]))}
+                return {"op": "valid", "value": valid_value()}
             return {"op": "default", "value": draw(st.sampled_from([10.0, 30.0]))}
         ev = {"op": "eval", "where": "worker", "dtype": "double", "rr": None}
         first, second = draw(st.sampled_from(EDITS)), draw(st.sampled_from(EDITS))
@@ -113,7 +123,7 @@ def histories(draw):
         elif kind == "default":
             steps.append({"op": "default", "value": draw(st.sampled_from([10.0, 20.0, 30.0]))})
         elif kind == "valid":
-            steps.append({"op": "valid", "value": draw(st.sampled_from([None, None, 5.0, 1000.0]))})
+            steps.append({"op": "valid", "value": valid_value()})
         elif kind == "revert":
             steps.append({"op": "revert", "file": draw(st.sampled_from(["plugin", "lib", "header", "wrapper"]))})
         else:
@@ -296,4 +306,4 @@ def plan(tier):
 
 
 def run_shard(ctx, spec):
-    ctx.explore("history", histories(), 20 if ctx.tier == "quick" else 150, shrink=True, shrink_examples=6)
+    ctx.explore("history", histories(), 26 if ctx.tier == "quick" else 150, shrink=True, shrink_examples=6)
